@@ -295,3 +295,46 @@ def negation_focus_spec(draw, int_leaves=False, depth=2, outer_connective=True):
     if outer == "NotNot":
         return {"k": "Not", "c": [{"k": "Not", "c": [x]}]}
     return {"k": "All", "id": None, "c": [{"k": "Not", "c": [x]}, other]}
+
+
+# ------------------------------------------------------------------------------------------------ exhaustive small shapes
+def small_shapes(slice_i=0, n_slices=1, wrappers=True):
+    """Finite family, enumerated completely: every single threshold node X over the leaves a (boolean) and t (integer,
+    -2..2) - AtLeast with every value in -2..3 and every sign (+1, -1, defaulted), AtMost with every value in -2..2, All,
+    Any; 1-2 children; explicit or generated id - alone and inside every connective (as Imply condition / consequence, under
+    Not, XNor, Xor, All, Any, AtMost, AtLeast(+), and doubly negated)."""
+    a = {"k": "leaf", "id": "a", "b": [0, 1]}
+    b = {"k": "leaf", "id": "b", "b": [0, 1]}
+    t = {"k": "leaf", "id": "t", "b": [-2, 2]}
+    xs = []
+    for ch in ([a], [t], [a, t]):
+        for xid in ("X", None):
+            for v in range(-2, 4):
+                for s in (1, -1, None):
+                    xs.append({"k": "AtLeast", "v": v, "s": s, "id": xid, "c": ch})
+            for v in range(-2, 3):
+                xs.append({"k": "AtMost", "v": v, "id": xid, "c": ch})
+            xs.append({"k": "All", "id": xid, "c": ch})
+            xs.append({"k": "Any", "id": xid, "c": ch})
+    i = 0
+    for x in xs:
+        forms = [x]
+        if wrappers:
+            forms += [
+                {"k": "Imply", "id": "W", "c": [x, b]},
+                {"k": "Imply", "id": None, "c": [b, x]},
+                {"k": "Not", "c": [x]},
+                {"k": "Not", "c": [{"k": "Not", "c": [x]}]},
+                {"k": "XNor", "id": None, "c": [x, b]},
+                {"k": "Xor", "id": "W", "c": [x, b]},
+                {"k": "All", "id": None, "c": [x, b]},
+                {"k": "Any", "id": "W", "c": [x, b]},
+                {"k": "AtMost", "v": 1, "id": None, "c": [x, b]},
+                {"k": "AtLeast", "v": 2, "s": 1, "id": "W", "c": [x, b]},
+                {"k": "Not", "c": [{"k": "All", "id": "W", "c": [x, b]}]},
+                {"k": "Imply", "id": None, "c": [{"k": "All", "id": None, "c": [x, b]}, a]},
+            ]
+        for f in forms:
+            if i % n_slices == slice_i:
+                yield f
+            i += 1
